@@ -308,6 +308,9 @@ pub struct Build {
     pub sct: Option<(u32, u32)>,
     /// encode EXT_TIME with SCT-High only (HEL 2, Use 0x8000): legal per RFC 5651, never produced by flute
     pub sct_high_only: bool,
+    /// EXT_TIME also carries an Expected Residual Time word / a Session Last Changed word (RFC 5651 5.2.2.3)
+    pub sct_ert: Option<u32>,
+    pub sct_slc: Option<u32>,
     pub fti: Option<Fti>,
     pub extra_exts: Vec<Vec<u8>>,
     pub sbn: u32,
@@ -434,13 +437,30 @@ pub fn encode(b: &Build) -> Vec<u8> {
         out.extend_from_slice(&[HET_CENC, ce, 0, 0]);
     }
     if let Some((sec, frac)) = b.sct {
-        if b.sct_high_only {
-            out.extend_from_slice(&[HET_TIME, 2, 0x80, 0]);
-            out.extend_from_slice(&sec.to_be_bytes());
-        } else {
-            out.extend_from_slice(&[HET_TIME, 3, 0xC0, 0]);
-            out.extend_from_slice(&sec.to_be_bytes());
+        let mut flags = 0x80u8;
+        let mut words = 2u8;
+        if !b.sct_high_only {
+            flags |= 0x40;
+            words += 1;
+        }
+        if b.sct_ert.is_some() {
+            flags |= 0x20;
+            words += 1;
+        }
+        if b.sct_slc.is_some() {
+            flags |= 0x10;
+            words += 1;
+        }
+        out.extend_from_slice(&[HET_TIME, words, flags, 0]);
+        out.extend_from_slice(&sec.to_be_bytes());
+        if !b.sct_high_only {
             out.extend_from_slice(&frac.to_be_bytes());
+        }
+        if let Some(v) = b.sct_ert {
+            out.extend_from_slice(&v.to_be_bytes());
+        }
+        if let Some(v) = b.sct_slc {
+            out.extend_from_slice(&v.to_be_bytes());
         }
     }
     for x in &b.extra_exts {
@@ -548,6 +568,8 @@ pub fn to_build(d: &Decoded) -> Build {
         cenc: d.cenc,
         sct: d.sct,
         sct_high_only: false,
+        sct_ert: None,
+        sct_slc: None,
         fti: d.fti.clone(),
         extra_exts: extra,
         sbn: d.sbn,
